@@ -6,5 +6,6 @@ CONSTANTS
   MaxOps = 0
   RawKeyLookup = FALSE
   RawKeyDup = FALSE
+  RawKeyMerge = FALSE
 INVARIANT Complete
 POSTCONDITION Report
